@@ -217,6 +217,30 @@ pub fn run(opts: &Opts) -> Report {
     let maxlen = if opts.thorough() { 5 } else { 3 };
     let intervals = [0usize, 1, 2, 3, 7, 100];
     let mut rng = Rng::new(opts.seed);
+    // ---------- the position index as it is built: milestone passes (the resource entering a store, under any interval, at any
+    // time) and text selections, against the Lean model PosIndex (`px` lines): the index itself (the hook's dump) and the
+    // positions in use ----------
+    {
+        let mut r2 = Rng::new(opts.seed ^ 0x9051_7105);
+        let n = if opts.thorough() { 4000 } else { 500 };
+        for _ in 0..n {
+            let len = 1 + r2.below(14);
+            let widths: Vec<usize> = (0..len).map(|_| 1 + r2.below(4)).collect();
+            let text: String = widths.iter().map(|w| match w { 1 => 'a', 2 => '\u{e9}', 3 => '\u{20ac}', _ => '\u{1f600}' }).collect();
+            let mut ops: Vec<String> = vec![format!("m{}", *r2.pick(&[0usize, 1, 2, 3, 7, 100]))];
+            for _ in 0..(1 + r2.below(8)) {
+                if r2.chance(22) { ops.push(format!("m{}", *r2.pick(&[0usize, 1, 2, 3, 5, 100]))); }
+                else { let b = r2.below(len + 1); let e = if r2.chance(12) { b } else if r2.chance(8) { len + 1 + r2.below(3) } else { b + r2.below(len + 1 - b) }; ops.push(format!("s{}.{}", b, e)); }
+            }
+            let line = format!("px {} {}", widths.iter().map(|w| w.to_string()).collect::<Vec<_>>().join(","), ops.join(" "));
+            rep.count(if ops.iter().skip(1).any(|o| o.starts_with('m')) { "position-index:with-a-later-milestone-pass" } else { "position-index:milestones-first" });
+            rep.case(Some(&line));
+            match guarded(std::panic::AssertUnwindSafe(|| px_exec(&text, &ops))) {
+                Ok(out) => rep.model_case(vec![line], vec![out], "position-index"),
+                Err(m) => rep.fail("panic", "position-index/panic", vec![line], "an index", &m),
+            }
+        }
+    }
     // all texts up to maxlen over the 4 widths
     let mut texts: Vec<String> = vec![String::new()];
     let mut frontier: Vec<String> = vec![String::new()];
@@ -270,4 +294,32 @@ pub fn run(opts: &Opts) -> Report {
     rep.sample(json!({"text": "a\u{e9}\u{20ac}\u{1F600}", "widths": [1,2,3,4], "config": "m2s1", "query": "utf8byte(3) -> 6; utf8byte_to_charpos(4) -> err (inside a 3-byte char)"}));
     rep.sample(json!({"text": "a\u{e9}\u{20ac}\u{1F600}", "selection": [1,3], "query": "sub.utf8byte(2) -> 5; sub.utf8byte(3) -> err"}));
     rep
+}
+
+/// the operations of a `px` line on a real resource: `m<i>` = the resource enters a store whose milestone interval is `i`
+/// (the first time it is created there, later it is copied into a new store), `s<b>.<e>` = an annotation on `[b, e)`
+fn px_exec(text: &str, ops: &[String]) -> String {
+    let mut store: Option<AnnotationStore> = None;
+    for op in ops {
+        if let Some(i) = op.strip_prefix('m') {
+            let iv: usize = i.parse().unwrap_or(0);
+            let mut st2 = AnnotationStore::new(Config::default().with_milestone_interval(iv));
+            match &store {
+                None => { st2.add_resource(TextResourceBuilder::new().with_id("r").with_text(text.to_string())).expect("resource"); }
+                // (a resource carries its own configuration: the copy is given the new store's before it enters it)
+                Some(old) => { let mut copy: TextResource = { let r = old.resource("r").unwrap(); let rr: &TextResource = r.as_ref(); rr.clone() }; copy.set_config(Config::default().with_milestone_interval(iv)); st2.insert(copy).expect("moved resource"); }
+            }
+            store = Some(st2);
+        } else if let Some(be) = op.strip_prefix('s') {
+            let (b, e) = be.split_once('.').unwrap();
+            if let Some(st) = store.as_mut() { let _ = st.annotate(AnnotationBuilder::new().with_target(SelectorBuilder::textselector("r", Offset::simple(b.parse().unwrap(), e.parse().unwrap()))).with_data("s", "k", "v")); }
+        }
+    }
+    let st = store.expect("a store");
+    let r = st.resource("r").unwrap();
+    let res: &TextResource = r.as_ref();
+    let pairs = |l: &Vec<(usize, usize)>| l.iter().map(|(a, b)| format!("{}-{}", a, b)).collect::<Vec<_>>().join(".");
+    let dump = res.verif_dump_positionindex().iter().map(|(p, b, b2e, e2b)| format!("{}:{}:{}:{}", p, b, pairs(b2e), pairs(e2b))).collect::<Vec<_>>().join(",");
+    let pos = |m: PositionMode| res.positions(m).map(|x| x.to_string()).collect::<Vec<_>>().join(".");
+    format!("{} | {} | {} | {} | {}", dump, pos(PositionMode::Begin), pos(PositionMode::End), pos(PositionMode::Both), res.textselections_len())
 }
